@@ -13,6 +13,9 @@ NODE = 1000
 PUSH_STEPS, POP_STEPS, POP_EMPTY_STEPS = 9, 11, 5
 
 
+L_REST = 13900     # search mode: byte b of the mpmc_fifo_t = 13900 + b (bytes registered otherwise keep their locs)
+
+
 def parse_case(case):
     v = [int(x) for x in case.split()]
     np_ = v[0]
@@ -30,6 +33,9 @@ def monitor(case, tr, raw):
     """property oracle on an implementation trace (None = fine)."""
     if tr is None:
         return "implementation produced no trace: %s" % (raw or "")[:80]
+    # search mode (RT_CATCHALL=1): accesses to bytes of the object(s) that have no location of their own are
+    # scheduling points, not events of the protocol judged here
+    tr = [e for e in tr if e[1] < L_REST or e[2] in (909, 919)]
     if (raw or "").strip() == "-1":
         return None
     params, progs = parse_case(case)
@@ -281,11 +287,12 @@ def search(ctx, exe):
         cases = gen_cases(rng_ctx, "thorough")[:60000]
     finally:
         rng_ctx.cleanup()
-    impl = core.run_sharded([exe], cases)
+    # RT_CATCHALL: every byte of the fifo object is a scheduling point (fields the model does not know included)
+    impl = core.run_sharded(["env", "RT_CATCHALL=1", exe], cases)
     for c, line in zip(cases, impl):
-        why = monitor(c, core.parse_trace(line) if line else None, line)
+        why = core.safe_monitor(monitor, c, core.parse_trace(line) if line else None, line)
         if why:
-            core.report_violation(ctx, "mpmc", c, why, line)
+            core.report_violation(ctx, "mpmc+catchall", c, why, line)
             if len(ctx.violations) >= 3:
                 break
 
@@ -300,7 +307,7 @@ def corpus(ctx):
 
 
 def replay(ctx, payload):
-    if payload.get("harness") == "hazard":
+    if str(payload.get("harness", "")).split("+")[0] == "hazard":
         from vf.props import C14
         return C14.replay(ctx, payload)
     exe = build(ctx)
@@ -308,6 +315,11 @@ def replay(ctx, payload):
     if not exe or not c:
         print("nothing to replay (no concrete case in this file)")
         return 2
+    if str(payload.get("harness", "")).endswith("+catchall"):
+        impl = core.run_sharded(["env", "RT_CATCHALL=1", exe], [c])[0]
+        why = core.safe_monitor(monitor, c, core.parse_trace(impl) if impl is not None else None, impl)
+        print("case:  %s\nimpl (every byte of the object a scheduling point):  %s\nmonitor: %s" % (c, impl, why or "ok"))
+        return 1 if why else 0
     impl = core.run_sharded([exe], [c])[0]
     mod = core.model_run("mpmchp", [c])[0]
     why = monitor(c, core.parse_trace(impl), impl)
